@@ -13,6 +13,7 @@ from __future__ import annotations
 import hashlib
 import json
 import pathlib
+import os
 import sys
 
 VERIF = pathlib.Path(__file__).resolve().parent.parent
@@ -47,10 +48,32 @@ def changed(prop: str, repo_root: pathlib.Path) -> list:
     return [f for f in files if lock.get(f) != now[f]]
 
 
+def changed_functions(prop: str, repo_root: pathlib.Path) -> list:
+    """modelled functions of `prop` (harness/modelmap.py) whose code - docstrings, comments and layout
+    apart - differs from the locked state, as 'file:Qualified.name -> Lean definitions'; a function that
+    no longer exists is reported as removed"""
+    from harness import modelmap
+    try:
+        lock = json.loads(LOCK.read_text()).get('__functions__', {})
+    except Exception:
+        return ['<no lock file>']
+    out = []
+    for f, q, leans in modelmap.functions_of(prop):
+        now = modelmap.function_hash(repo_root, f, q)
+        if now is None:
+            out.append(f'{f}:{q} (removed or renamed; modelled by {", ".join(leans)})')
+        elif lock.get(f'{f}:{q}') != now:
+            out.append(f'{f}:{q} (modelled by {", ".join(leans)})')
+    return out
+
+
 def relock(repo_root: pathlib.Path) -> None:
+    from harness import modelmap
     files = sorted({f for fs in anchored_files().values() for f in fs})
-    LOCK.write_text(json.dumps(fingerprint(repo_root, files), indent=1, sort_keys=True) + '\n')
-    print(f'{len(files)} anchored files locked')
+    lock = fingerprint(repo_root, files)
+    lock['__functions__'] = modelmap.fingerprints(repo_root)
+    LOCK.write_text(json.dumps(lock, indent=1, sort_keys=True) + '\n')
+    print(f'{len(files)} anchored files and {len(lock["__functions__"])} modelled functions locked')
 
 
 if __name__ == '__main__':
